@@ -49,6 +49,54 @@ def _inputs_unchanged(ck, cmp_fn):
     ck.floor("C19.4 compare calls in compare_alignments.Program.run", n, 1)
 
 
+def identity_measure(ck, rule, rcmp):
+    """identity of two pair lists is a similarity *of the lists*: matching blocks over total length, both counted in list entries
+    (difflib.SequenceMatcher(None, a, b).ratio()) - so a list compared with itself gives 1 whatever it holds. A quotient whose
+    numerator counts distinct pairs (a set) and whose denominator counts list entries is below 1 for a self comparison as soon
+    as a pair is listed twice."""
+    p = ck.ctx.p
+    ck.clause(rule, "identity is a ratio of like counts: SequenceMatcher(None, pairs1, pairs2).ratio() over the two pair lists "
+                    "(never distinct pairs over list entries)")
+    n = 0
+    for pa0 in explore(ck, rcmp):
+        if pa0.outcome != "return" or pa0.value[0] != "new":
+            continue
+        ident = dict(pa0.value[2]).get("identity")
+        if ident is None:
+            raise AnalysisError(f"{where(rcmp, pa0.node)}: the comparison row has no identity")
+        if ident[0] == "app" and ident[1] in p.functions:
+            fn = p.functions[ident[1]]
+            vals = [(pa.value, where(fn, pa.node)) for pa in explore(ck, fn) if pa.outcome == "return"]
+            params = [V(pp.name) for pp in fn.call_params()]
+        else:
+            fn = rcmp
+            vals = [(ident, where(rcmp, pa0.node))]
+            params = None
+        for v, w in vals:
+            if v[0] == "c":
+                continue
+            n += 1
+            if v[0] == "mcall" and v[2] == "ratio" and v[1][0] == "call" and v[1][1].endswith("SequenceMatcher"):
+                a = [x for x in v[1][2][1:]] + [t for k, t in v[1][3] if k in ("a", "b")]
+                ok = len(a) == 2 and a[0] != a[1] and (params is None or set(a) == set(params[-2:]))
+                ck.judge(ok, rule, short(fn) + ":identity", w, "identity = SequenceMatcher ratio of the two pair lists",
+                         found=T.show(v)[:160], required="SequenceMatcher(None, pairs1, pairs2).ratio()")
+                continue
+            if v[0] == "div":
+                num_sets = [x for x in T.subterms(v[1]) if (x[0] == "call" and x[1] in ("set", "frozenset")) or
+                            (x[0] == "mcall" and x[2] in ("intersection", "difference", "union", "symmetric_difference"))]
+                den_lens = [x for x in T.subterms(v[2]) if x[0] == "call" and x[1] == "len" and x[2] and x[2][0][0] == "v"]
+                den_sets = [x for x in T.subterms(v[2]) if x[0] == "call" and x[1] in ("set", "frozenset")]
+                if num_sets and den_lens and not den_sets:
+                    ck.violation(rule, short(fn) + ":identity", w,
+                                 "the identity counts distinct pairs in the numerator and list entries in the denominator: an alignment "
+                                 "that lists a pair twice has identity below 1 when compared with itself",
+                                 found=T.show(v)[:200], required="SequenceMatcher(None, pairs1, pairs2).ratio() (entries over entries)")
+                    continue
+            raise AnalysisError(f"{w}: identity measure of a compared row not recognised: {T.show(v)[:160]}")
+    ck.floor(f"{rule} identity expressions judged", n, 1)
+
+
 def run(ck):
     ctx = ck.ctx
     p = ctx.p
@@ -300,6 +348,7 @@ def run(ck):
     # ---- C19.3 symmetry
     rcmp = p.find_method("AlignmentRowComparer", "compare")
     x1, x2 = [V(pp.name) for pp in rcmp.call_params()]
+    identity_measure(ck, "C19.5", rcmp)
     for pa in explore(ck, rcmp):
         if pa.outcome != "return" or pa.value[0] != "new":
             continue
